@@ -684,8 +684,9 @@ mut('ok-c06-begin-early-raise', ['C06'], AU,
       "        if self.state != 'WaitingForBegin':\n            raise DBusAuthenticationFailed('Protocol violation')\n        self.authenticated = True\n        self.guid = self.current_mech.getUserName()\n        self.current_mech = None")], kind='benign')
 mut('ok-c17-read-substring', ['C17'], OB,
     [("        if p.iprop.access == 'write':\n            raise Exception('Property is not readable')", "        if 'read' not in p.iprop.access:\n            raise Exception('Property is not readable')")], kind='benign')
-mut('ok-c09-swap-callbacks', ['C09'], CL,
-    [("            for cb in list(self._dcCallbacks):\n                cb(self, reason)", "            callbacks, self._dcCallbacks = self._dcCallbacks, []\n            for cb in callbacks:\n                cb(self, reason)")], kind='benign')
+# ('ok-c09-swap-callbacks' was removed: detaching the callback list is NOT benign while
+# cancelNotifyOnDisconnect removes unguarded - shown by the round-4 seed C09-r4; see
+# c09-dccallbacks-detached and ok-c09-dccallbacks-detached-and-tolerant)
 mut('ok-c16-export-local-path', ['C16'], OB,
     [("        o = IDBusObject(dbusObject)\n        self.exports[o.getObjectPath()] = o\n", "        o = IDBusObject(dbusObject)\n        path = o.getObjectPath()\n        self.exports[path] = o\n")], kind='benign')
 mut('ok-c05-guard-not', ['C05', 'C01'], M,
@@ -994,3 +995,16 @@ mut('c05-signed-string-length', ['C05'], M,
     [("    slen = struct.unpack_from(lendian and '<I' or '>I', data, offset)[0]\n    s = codecs.decode(data[offset + 4: offset + 4 + slen], 'utf-8')",
       "    slen = struct.unpack_from(lendian and '<i' or '>i', data, offset)[0]\n    s = codecs.decode(data[offset + 4: offset + 4 + slen], 'utf-8')")], ['C05.D1'],
     note='round-3 seed (condensed): a signed length makes the reported size negative and the array loop run backwards')
+
+# round-4 seeds as regression mutants ----------------------------------------------
+mut('c09-dccallbacks-detached', ['C09'], CL,
+    [("            for cb in list(self._dcCallbacks):\n                cb(self, reason)", "            callbacks, self._dcCallbacks = self._dcCallbacks, []\n            for cb in callbacks:\n                cb(self, reason)")], ['C09.D3'],
+    note='round-4 seed: the registry is emptied before the callbacks run while cancelNotifyOnDisconnect removes unguarded')
+mut('ok-c09-dccallbacks-detached-and-tolerant', ['C09'], CL,
+    [("            for cb in list(self._dcCallbacks):\n                cb(self, reason)", "            callbacks, self._dcCallbacks = self._dcCallbacks, []\n            for cb in callbacks:\n                cb(self, reason)"),
+     ("        self._dcCallbacks.remove(callback)", "        if callback in self._dcCallbacks:\n            self._dcCallbacks.remove(callback)")], kind='benign',
+    note='detaching is fine when cancelling an absent callback is harmless')
+mut('c11-searchcache-falls-into-any-interface', ['C10', 'C11', 'C17'], OB,
+    [("            if interfaceName:\n                if interfaceName in cache:\n                    d = getattr(cache[interfaceName], cacheAttr)\n                    if key in d:\n                        return d[key]\n",
+      "            if interfaceName and interfaceName in cache:\n                d = getattr(cache[interfaceName], cacheAttr)\n                if key in d:\n                    return d[key]\n")], ['C10.D6', 'C11.D4', 'C17.D4'],
+    note='round-4 seed: a named lookup falls into the any-interface search')
